@@ -189,6 +189,19 @@ static void l2_shard(long shard, void *arg) {
     }
 }
 
+/* every byte value SUBSTITUTED at every position of 12 complete addresses (the templates above insert; a keyword, tag, separator or quote replaced
+ * by a look-alike byte - a control character that folds to the same letter, a byte with the high bit set - is only reached by substitution) */
+static const char *const SUBST[] = { "x@[IPv6:::1]", "x@[ipv6:1:2:3:4:5:6:7:8]", "x@[IPv6:1:2:3:4:5:6:1.2.3.4]", "x@[1.2.3.4]", "x@[::1]", "\"a b\"@c.de", "a.b@c-d.ef", "x@xn--p1ai.com",
+    "x@example.com", "x@a.test", "\"a\\\"b\".c@d.org", "x@localhost" };
+#define NSUBST ((int)(sizeof SUBST / sizeof SUBST[0]))
+static void l2subst_shard(long shard, void *arg) {
+    (void)arg; const char *t = SUBST[shard]; size_t n = strlen(t); unsigned char s[96];
+    for (size_t p = 0; p < n; p++) for (int b = 1; b < 256; b++) {
+        if (b == (unsigned char)t[p]) continue;
+        memcpy(s, t, n); s[p] = (unsigned char)b; check_email("L2subst", s, n); MC_ADD(C_L2, 1);
+    }
+}
+
 /* ---------- L3: counters and placements ---------- */
 static size_t lp_shape(unsigned char *o, int shape, int len) {
     /* exactly len bytes of local part */
@@ -392,6 +405,7 @@ int main(int argc, char **argv) {
     setup_objects();
     if (mc_replay) return do_replay();
     mc_parallel("L2: 19 templates x 255 bytes (+ byte pairs)", NTPL, l2_shard, NULL);
+    mc_parallel("L2: every byte substituted at every position of 12 complete addresses", NSUBST, l2subst_shard, NULL);
     mc_parallel("L3: local part length 0..70 x 5 shapes x 5 domains", 71, l3_lpart, NULL);
     mc_parallel("L3: domain length 1..262 x label sizes x root dot", 262, l3_domlen, NULL);
     mc_parallel("L3: local part 1..70 octets (3 shapes) x domain 240..262 characters (3 layouts, root dot): both halves near their limits", 70, l3_product, NULL);
